@@ -107,7 +107,10 @@ def type_id(k, v):
 class Builder:
     """One world, built through the public API; remembers creation order (item ids)."""
 
-    def __init__(self, ka, modifier, category, default, held=False):
+    def __init__(self, ka, modifier, category, default, held=False, effect_id=EFFECT_ID, effect_kw=None,
+                 attr_hook=None, extra_attrs=()):
+        """`effect_kw`: further keyword arguments of the effect under test; `attr_hook(k, v, tid, attrs)` may add type
+        attributes; `extra_attrs`: further attribute ids the source knows (used by gen/resist_table, gen/fleet_table)."""
         from harness import mem
         from eos import SolarSystem
         from eos.const.eve import TypeCategoryId as T
@@ -119,7 +122,12 @@ class Builder:
         self.ch = ch = mem.MemCache()
         ch.mkattr(attr_id=TGT)
         ch.mkattr(attr_id=SRC)
-        self.effect = ch.mkeffect(effect_id=EFFECT_ID, category_id=category, modifiers=(modifier,))
+        for extra in extra_attrs:
+            ch.mkattr(attr_id=extra)
+        self.attr_hook = attr_hook
+        self.effect = ch.mkeffect(effect_id=effect_id, category_id=category,
+                                  modifiers=() if modifier is None else (modifier,), **(effect_kw or {}))
+        self.fleets = []
         self.default = default
         self.held = held          # build with the effect under test stopped (local) / without target (projected)
         self.affector = None
@@ -141,6 +149,8 @@ class Builder:
                 attrs[SRC] = DELTA
                 effects = (self.effect,)
                 default = self.effect if self.default else None
+            if self.attr_hook is not None:
+                self.attr_hook(k, v, tid, attrs)
             self.ch.mktype(type_id=tid, group_id=grp, category_id=self.cats[k], attrs=attrs, effects=effects,
                            default_effect=default, required_skills={s: 1 for s in req})
         return tid
@@ -165,7 +175,7 @@ class Builder:
             self.affector = it
             if self.held and not self.default:
                 from eos import EffectMode
-                it.set_effect_mode(EFFECT_ID, EffectMode.force_stop)
+                it.set_effect_mode(self.effect.id, EffectMode.force_stop)
         if k == 0:
             f.character = it
         elif k == 1:
@@ -209,7 +219,7 @@ class Builder:
             if self.affector.target is not self.target:
                 raise AssertionError('target not set')
         elif self.held:
-            self.affector.set_effect_mode(EFFECT_ID, EffectMode.full_compliance)
+            self.affector.set_effect_mode(self.effect.id, EffectMode.full_compliance)
 
     # -- reading back
     def snapshot(self):
@@ -226,12 +236,13 @@ class Builder:
                     raise AssertionError('item that was not created by the builder: %r' % it)
                 if not it._is_loaded:
                     raise AssertionError('unloaded item %r' % it)
-                if int(it.get_effect_mode(EFFECT_ID)) != 1:
+                if int(it.get_effect_mode(self.effect.id)) != 1:
                     raise AssertionError('effect mode override left on %r' % it)
                 live.append((it, fi))
-            fits.append((fi, getattr(f.ship, '_aid', None), getattr(f.character, '_aid', None), None))
-            if f.fleet is not None:
-                raise AssertionError('fleet')
+            if f.fleet is not None and f.fleet not in self.fleets:
+                raise AssertionError('fleet that was not created by the builder')
+            fits.append((fi, getattr(f.ship, '_aid', None), getattr(f.character, '_aid', None),
+                         None if f.fleet is None else 1 + self.fleets.index(f.fleet)))
         if sorted(it._aid for it, _ in live) != list(range(1, len(self.items) + 1)):
             raise AssertionError('items on the fits differ from the created ones')
         live.sort(key=lambda p: p[0]._aid)
@@ -483,10 +494,17 @@ def lean_world(name, snap, affector, tprefix):
             '    types := [%s],\n    affector := %d }\n' % (name, fl, il, tl, affector))
 
 
+def _num(v):
+    """Exact Lean numeral of a type attribute value (ints as they are, floats as their exact ratio)."""
+    import fractions
+    fr = fractions.Fraction(v)
+    return '%d' % fr.numerator if fr.denominator == 1 else '%d/%d' % (fr.numerator, fr.denominator)
+
+
 def lean_types(tprefix, types):
     return ''.join('def %s%d : ItemType := ⟨%d, %s, %s, %s, [%s], %s, %s⟩\n' % (
-        tprefix, t[0], t[0], _o(t[1]), _o(t[2]), _o(t[3]), ', '.join('(%d, %d)' % av for av in t[4]), _ints(t[5]),
-        _ints(t[6])) for t in types)
+        tprefix, t[0], t[0], _o(t[1]), _o(t[2]), _o(t[3]), ', '.join('(%d, %s)' % (a, _num(v)) for a, v in t[4]),
+        _ints(t[5]), _ints(t[6])) for t in types)
 
 
 def lean_mod(m):
